@@ -19,7 +19,7 @@ EVAL_KEY = "evaluations"
 DISTINCT_KEY = "renderings"
 NSHARDS = {"quick": 8, "thorough": 16}
 FLOORS = {"quick": {"renderings_judged": 4000, "corpus_perturbations": 600, "distinct:gap-kinds": 60, "irs": 150},
-          "thorough": {"renderings_judged": 80000, "corpus_perturbations": 3000, "distinct:gap-kinds": 80, "irs": 8000}}
+          "thorough": {"renderings_judged": 80000, "corpus_perturbations": 1600, "distinct:gap-kinds": 80, "irs": 8000}}
 ASSUMPTIONS = ["the renderer (mf/render.py) varies only what the property lists; what a rendering means is fixed by the IR",
                "corpus gaps are located with mappyfile's own lexer (input generation only, never the oracle)"]
 DOMAIN = gen.DOMAIN + ["a gap between two tokens is never emptied; gaps that are empty in the source (e.g. inside [name]) stay empty",
